@@ -223,7 +223,7 @@ func enShared(items []enCat, cat []enCat) []core.Finding {
 }
 
 func runC17(c *core.Ctx) error {
-	for _, cfg := range []string{"EnumRule_graph.cfg", "EnumRule_graph2.cfg", "EnumRule_graph3.cfg"} {
+	for _, cfg := range []string{"EnumRule_graph.cfg", "EnumRule_graph2.cfg", "EnumRule_graph3.cfg", "EnumRule_graph4.cfg"} {
 		if err := runC17cfg(c, cfg); err != nil {
 			return err
 		}
@@ -232,7 +232,7 @@ func runC17(c *core.Ctx) error {
 	if err := runObjHistories(c, objKinds["enum"], objPairs([]string{"[1, \"a\"]", "[\"a\", // c\n 2]", "[1, 1]", "[-1, \"-1\", 1.5]", "[", "[true, null]", "[\"x\", \"y\", \"z\"] // note", "", "[1.0, 1]"}, c.Pick(9, 36), c.Seed)); err != nil {
 		return err
 	}
-	c.Set("rule", "token paths of the TLC-dumped EnumRule automaton (<= 3 items from three 12-scalar parts of a 29-scalar catalogue): access sequence of every state followed by every token sequence <= k, plus seeded random walks; printed to text and replayed on enum.New (Check, Values) and, per distinct accepted item list, on schemas using the rule by name vs inline for every catalogue value. distinct_nontrivial = distinct (state, token) edges crossed")
+	c.Set("rule", "token paths of the TLC-dumped EnumRule automaton (<= 3 items from four parts of a 37-scalar catalogue): access sequence of every state followed by every token sequence <= k, plus seeded random walks; printed to text and replayed on enum.New (Check, Values) and, per distinct accepted item list, on schemas using the rule by name vs inline for every catalogue value. distinct_nontrivial = distinct (state, token) edges crossed")
 	c.Assume = append(c.Assume, "annotation entries (no value) returned by Values() are not counted as scalars", "the empty list and annotations before '[' have no verdict")
 	return nil
 }
